@@ -44,7 +44,11 @@ def strategy_(draw, tier):
     fn_paths = draw(st.lists(st.lists(gen.names(raw=False), min_size=1, max_size=4), max_size=3))
     return {"comps": comps, "tkind": tkind, "kind": kind, "secs": secs, "raw": raw,
             "fn_paths": fn_paths, "uid": draw(st.sampled_from([1000, 0, 70000])),
-            "spell": draw(st.sampled_from(["abs", "rel", "slash"]))}
+            "spell": draw(st.sampled_from(["abs", "abs", "rel", "rel", "slash", "slash", "deepcwd"])),
+            "tz": draw(st.sampled_from([None, None, 9, -8, 5.5])),
+            # the mount point's own name may contain what looks like an escape, blanks, non-ASCII
+            "vol": draw(st.sampled_from(["/vol", "/vol", "/vol", "/media/usb%41", "/mnt/my disk",
+                                         "/mnt/d\u00efsk%2F", "/v%"]))}
 
 
 def strategy(tier):
@@ -65,15 +69,18 @@ def run_case(case):
     out = Outcome()
     uid = case["uid"]
     home = "/home/u"
-    vols = ["/vol"]
-    base = home + "/w" if case["tkind"] == "home" else "/vol/w"
+    V = case.get("vol", "/vol")
+    vols = [V]
+    base = home + "/w" if case["tkind"] == "home" else V + "/w"
     d = base
+    if case["spell"] == "deepcwd":   # a location deeper than PATH_MAX, named relative to the cwd
+        d = d + "".join("/%02d" % j + "d" * 240 for j in range(17))
     for c in case["comps"][:-1]:
         d = d + "/" + c
     e = d + "/" + case["comps"][-1]
     nodes = [{"p": d, "t": "d"}]
     if case["tkind"] == "top_sticky":
-        nodes += gen.topdir_nodes("/vol", uid, "sticky", "absent")
+        nodes += gen.topdir_nodes(V, uid, "sticky", "absent")
     if case["kind"] in ("file", "empty"):
         nodes.append({"p": e, "t": "f", "c": "x" if case["kind"] == "file" else ""})
     elif case["kind"] == "dir":
@@ -81,7 +88,8 @@ def run_case(case):
     else:
         nodes.append({"p": e, "t": "l", "to": "nowhere"})
     now = gen.date_str(case["secs"])
-    spec = {"vols": vols, "nodes": nodes, "env": {"HOME": home}, "uid": uid, "cwd": d, "now": now}
+    spec = {"vols": vols, "nodes": nodes, "env": {"HOME": home}, "uid": uid, "cwd": d, "now": now,
+            "tz": case.get("tz")}
     ncls = "+".join(sorted(set("+".join(gen.name_class(c) for c in case["comps"]).split("+"))))
     tags = dict(tkind=case["tkind"], nonutf8=("nonutf8" in ncls))
     try:
@@ -89,17 +97,18 @@ def run_case(case):
     except OSError as ex:  # path too long for the host file system: not a case
         out.classes.append("skipped:unbuildable")
         return out
-    arg = {"abs": e, "rel": "./" + case["comps"][-1], "slash": e + "/"}[case["spell"]]
+    arg = {"abs": e, "rel": "./" + case["comps"][-1], "slash": e + "/",
+           "deepcwd": "./" + case["comps"][-1]}[case["spell"]]
     if case["kind"] not in ("dir",) and case["spell"] == "slash":
         arg = e
     before = sandbox.snapshot()
     res = runner.run(spec, "trash-put", ["--", arg])
     after = sandbox.snapshot()
-    tdir = {"home": home + "/.local/share/Trash", "top_sticky": "/vol/.Trash/%d" % uid,
-            "top_alt": "/vol/.Trash-%d" % uid}[case["tkind"]]
+    tdir = {"home": home + "/.local/share/Trash", "top_sticky": V + "/.Trash/%d" % uid,
+            "top_alt": V + "/.Trash-%d" % uid}[case["tkind"]]
     new_infos = [p for p in after if p.startswith(tdir + "/info/") and p not in before]
     out.classes += ["tkind:" + case["tkind"], "kind:" + case["kind"], "exit:%d" % res.code,
-                    "names:" + ncls]
+                    "names:" + ncls, "spell:" + case["spell"]]
     if res.code != 0 or len(new_infos) != 1:
         out.fail("put_failed", "trash-put of %r: exit %d, %d new info files in %s; stderr %r" % (
             arg, res.code, len(new_infos), tdir, res.err[-300:]), **tags)
@@ -108,7 +117,7 @@ def run_case(case):
     raw = sandbox.read_bytes(ip)
     lines = raw.split(b"\n")
     expected_abs = fsenc(e)
-    expected = expected_abs if case["tkind"] == "home" else expected_abs[len(b"/vol/"):]
+    expected = expected_abs if case["tkind"] == "home" else expected_abs[len(fsenc(V)) + 1:]
     # ---- conformance of the bytes
     if not (len(lines) >= 3 and lines[0] == b"[Trash Info]"):
         out.fail("header", "first line is %r" % lines[:1], **tags)
@@ -139,7 +148,7 @@ def run_case(case):
     if r.out != shown + "\n" or r.code != 0:
         out.fail("list_readback", "trash-list printed %r (exit %d, stderr %r), expected %r" % (
             r.out, r.code, r.err[-200:], shown), **tags)
-    r = runner.run(spec, "trash-restore", ["/"], cwd="/vol", stdin="")
+    r = runner.run(spec, "trash-restore", ["/"], cwd=V, stdin="")
     if not r.out.startswith("   0 " + shown + "\n"):
         out.fail("restore_readback", "trash-restore listed %r (stderr %r), expected %r" % (
             r.out[:200], r.err[-200:], "   0 " + shown), **tags)
@@ -190,7 +199,7 @@ def fn_level(out, case, tags):
 
 def finish(out, case, ncls):
     if ncls not in ("plain",):
-        out.key = [ncls, case["tkind"], len(case["comps"]),
+        out.key = [ncls, case["tkind"], case.get("vol", "/vol"), len(case["comps"]),
                    min(len(fsenc(case["comps"][-1])) // 64, 3), case["kind"]]
         out.sample = {"comps": case["comps"], "tkind": case["tkind"], "kind": case["kind"],
                       "secs": case["secs"]}
